@@ -154,6 +154,15 @@ EvInsert(o, n, len) == [ev |-> "insert", o |-> o, n |-> n, len |-> len]
 EvReplace(o, ol, n, nl) == [ev |-> "replace", o |-> o, ol |-> ol, n |-> n, nl |-> nl]
 EvFinish == [ev |-> "finish"]
 
+\* streams as integer tuples <<tag, o, ol, n, nl>> (tag 0 = equal .. 3 = replace, 4 = finish)
+TupleEvent(t) ==
+  CASE t[1] = 0 -> EvEqual(t[2], t[4], t[3])
+    [] t[1] = 1 -> EvDelete(t[2], t[3], t[4])
+    [] t[1] = 2 -> EvInsert(t[2], t[4], t[5])
+    [] t[1] = 3 -> EvReplace(t[2], t[3], t[4], t[5])
+    [] t[1] = 4 -> EvFinish
+TupleEvents(ts) == [i \in 1..Len(ts) |-> TupleEvent(ts[i])]
+
 SEnabled(s, maxl) ==
   IF s.fin > 0 THEN {}
   ELSE {EvEqual(s.oc, s.nc, k) : k \in {k \in 1..maxl :
